@@ -23,8 +23,17 @@ def main(path):
     payload = dict(doc.get('extra') or {})
     payload.update({'seed': doc['seed'], 'tier': doc.get('tier') or 'quick', 'force': doc.get('force'),
                     'choices': doc['choices'], 'want_log': 60})
+    if doc['engine'] == 'cli_matrix':
+        print(f"enumerated subprocess case; re-run: ./check {doc['property']} quick   (case {doc.get('case')})")
+        return 2
     b = D.Batch(eng, doc['property'], payload['tier'])
     os.environ['VERIF_JOBS'] = '1'
+    if doc['engine'] == 'histsim' and not os.environ.get('DSIM_REFDIR'):
+        import tempfile
+        os.environ['DSIM_REFDIR'] = tempfile.mkdtemp(prefix='dsim-ref-', dir='/dev/shm')
+        import atexit
+        import shutil
+        atexit.register(shutil.rmtree, os.environ['DSIM_REFDIR'], True)
     b.open()
     try:
         rec = None
@@ -52,13 +61,25 @@ def main(path):
 
 
 def digests(engine_name, tier, seeds):
+    import shutil
+    import tempfile
     eng = engine(engine_name)
+    refdir = None
+    if engine_name == 'histsim' and not os.environ.get('DSIM_REFDIR_KEEP'):
+        refdir = tempfile.mkdtemp(prefix='dsim-ref-', dir='/dev/shm')
+        os.environ['DSIM_REFDIR'] = refdir
     b = D.Batch(eng, '-', tier).open()
     out = {}
     try:
-        for _, pl, rec in b.run([{'seed': s, 'tier': tier} for s in seeds], 300):
-            out[str(pl['seed'])] = rec.get('digest')
+        extra = {'parse_orders': 4 if tier == 'quick' else 16} if engine_name == 'histsim' else {}
+        for _, pl, rec in b.run([dict({'seed': s, 'tier': tier}, **extra) for s in seeds], 600):
+            if engine_name == 'histsim':
+                out[str(pl['seed'])] = [rec.get('digest'), rec.get('result_digest')]
+            else:
+                out[str(pl['seed'])] = rec.get('digest')
     finally:
         b.close()
+        if refdir:
+            shutil.rmtree(refdir, ignore_errors=True)
     print(json.dumps(out))
     return 0
